@@ -941,7 +941,7 @@ func (e *emitter) stringLit() string {
 }
 
 func (e *emitter) templateLit() string {
-	pieces := []string{"a", "text", " ", "\n", "'", "\"", "1+1", "{x}", ";", " \n", "\n\n", "  \n  b", "\t\n", "${x}", "\n// c\n", "x  "}
+	pieces := []string{"a", "text", " ", "\n", "'", "\"", "1+1", "{x}", ";", " \n", "\n\n", "  \n  b", "\t\n", "${x}", "\n// c\n", "x  ", "\\`", "a\\`b"}
 	var sb strings.Builder
 	sb.WriteString("`")
 	n := e.ch.Weighted(1, 4, 3, 2, 1)
